@@ -29,7 +29,7 @@ NestOK(e, PP) ==
   IN  /\ UpStr(Split(e.orig, PP).lab) = UpStr(Split(e.raw, PP).lab)
       /\ NormR(r0) = NormR(r1)
       /\ e.fin = e.fin0
-      /\ e.nest \in ResplitKinds => (r1.ok /\ UpStr(e.fin.op) = r1.op /\ e.fin.argc = Len(r1.args))
+      /\ e.nest \in ResplitKinds => (r1.ok /\ UpStr(e.fin.op) = UpStr(r1.op) /\ e.fin.argc = Len(r1.args))
 PairOK(e)  == \E k \in 1..Len(e.p.qq) : /\ Fields(Split(e.raw, PWith(e, e.p.qq[k]))) = Logged(e)
                                          /\ IF e.nest = "" THEN SameStatement(e.orig, e.raw, PWith(e, e.p.qq[k]))
                                             ELSE NestOK(e, PWith(e, e.p.qq[k]))
